@@ -77,6 +77,7 @@ def gen(rng, tier, index):
         "how": [gens.pick(rng, forms.CONFIGURE) for _ in range(4)],
         "via": gens.pick(rng, ("fit", "fit", "fit_transform")),
         "xform": gens.pick(rng, forms.PRESENT),
+        "carry": gens.pick(rng, forms.CARRY),
     }
 
 
@@ -184,6 +185,7 @@ def run(case, j):
         j.note("fits_through_fit_transform")
     else:
         j.lib("fit:named", est_a.fit, Xin, fit_Y, **fit_kw)
+    est_a = forms.carry(est_a, case.get("carry", "same"), j)  # what is used afterwards may be a copy of what was fitted
 
     # ---- (v) any number of new samples: shapes
     T_v = np.asarray(j.lib("transform:heldout", est_a.transform, Xv))
